@@ -137,19 +137,24 @@ def touchDig (rp : Repo) (d : String) : Repo :=
 
 def isRespEntry (d : Desc) : Bool := !d.ann.isNil ∧ d.ann.subj ≠ ""
 
-def stepAged (s : State) (q : Req) : State × Resp :=
-  let (s', o) := step s q
-  let r := q.repo
+/-- what an answer acknowledges as stored (`Docker-Content-Digest` of a manifest push, the digest in the `Location` of a blob) -/
+def ackOf (r : String) (o : Resp) : List String :=
   let pre := "blob:" ++ r ++ ":"
-  -- the content this answer acknowledges
-  let ack : List String :=
-    if o.status ≠ 201 then [] else
-    if o.dcd ≠ "" then [o.dcd] else
-    if o.loc.startsWith pre then [(o.loc.drop pre.length).toString] else []
-  -- referrers responses registered by this request
-  let before := (s.repo r).index.manifests.filter isRespEntry
-  let newResp := ((s'.repo r).index.manifests.filter (fun d => isRespEntry d ∧ !before.contains d)).map (·.dig)
-  if (ack ++ newResp).isEmpty then (s', o) else (s'.setRepo ((ack ++ newResp).foldl touchDig (s'.repo r)), o)
+  if o.status ≠ 201 then [] else
+  if o.dcd ≠ "" then [o.dcd] else
+  if o.loc.startsWith pre then [(o.loc.drop pre.length).toString] else []
+
+/-- the referrers responses registered by a request: subject-annotated entries that were not there before -/
+def newResps (before after : Repo) : List String :=
+  let b := before.index.manifests.filter isRespEntry
+  (after.index.manifests.filter (fun d => isRespEntry d ∧ !b.contains d)).map (·.dig)
+
+def ageWith (s' : State) (r : String) (l : List String) (o : Resp) : State × Resp :=
+  if l.isEmpty then (s', o) else (s'.setRepo (l.foldl touchDig (s'.repo r)), o)
+
+def stepAged (s : State) (q : Req) : State × Resp :=
+  let p := step s q
+  ageWith p.1 q.repo (ackOf q.repo p.2 ++ newResps (s.repo q.repo) (p.1.repo q.repo)) p.2
 
 /-- Close + New on the same directory, possibly with another configuration (`conf`).
     * directory store: Close collects every open repository (unless read-only), the new server reloads index.json;
